@@ -25,6 +25,36 @@ def _toy(leaves):
     return h
 
 
+def _models_ok():
+    """The stand-ins for C-implemented numbers agree with CPython on every value of a small range:
+    round/floor/ceil/trunc of n/8 (SymReal), and truth value, subtraction, negation, abs of SymTD vs timedelta."""
+    import math
+    from datetime import timedelta
+
+    from .models import SymTD
+
+    bad = []
+
+    def h(ex):
+        n = ex.int("n", -20, 20)
+        x = n / 8
+        vals = (round(x), math.floor(x), math.ceil(x), math.trunc(x))
+        td = SymTD(seconds=n)
+        truth = bool(td)
+        diff = (SymTD(minutes=1) - td).us
+        ab = abs(td).us
+        n0 = int(n)
+        ref = timedelta(seconds=n0)
+        want = (round(n0 / 8), math.floor(n0 / 8), math.ceil(n0 / 8), math.trunc(n0 / 8))
+        if tuple(int(v) for v in vals) != want or truth != bool(ref) or int(diff) != (timedelta(minutes=1) - ref) // timedelta(microseconds=1) \
+                or int(ab) != abs(ref) // timedelta(microseconds=1):
+            bad.append(n0)
+
+    ex = Explorer(path_seconds=0)
+    done = ex.explore(h)
+    return bool(done) and not bad
+
+
 def run():
     leaves = []
     ex = Explorer(path_seconds=0)
@@ -41,5 +71,6 @@ def run():
         cx = ConcreteExplorer(planted[0]["assignment"])
         cx.run(_toy([]))
         rep = any(v["message"] == "planted" for v in cx.violations)
-    return dict(ok=bool(ok and rep), leaves=len(leaves), expected=len(exp), planted_found=len(planted) > 0,
+    models = _models_ok()
+    return dict(ok=bool(ok and rep and models), number_models_agree_with_cpython=models, leaves=len(leaves), expected=len(exp), planted_found=len(planted) > 0,
                 planted_replays=rep, spurious=len(other), paths=ex.stats["paths"], queries=ex.stats["queries"])
